@@ -146,6 +146,36 @@ theorem closure_env_args_are_variables (st : State) (sc : Scope) (params : List 
           (caps.map (fun p => .var p.1 p.2)) :=
   ⟨_, rfl⟩
 
+theorem unrebind_rebind (n envp : String) (t : Ty) (body : Expr) : ∀ (caps : List (String × Ty)) (i : Nat),
+    unrebind n envp i (caps.map (·.1)) (rebind n envp t body i caps) = some body
+  | [], _ => rfl
+  | (x, ty) :: rest, i => by
+    simp only [List.map_cons, rebind, unrebind, beq_self_eq_true, Bool.and_self, if_true]
+    exact unrebind_rebind n envp t body rest (i + 1)
+
+/-- `transform_closure`, structurally: the environment struct is built from exactly the captured
+    variables, in order; the apply function pushed for it is named `inherent#S#S#apply`, takes the
+    environment first and then the closure's parameters, and its body is the lifted closure body
+    under one rebinding `let x = env.<i>` per captured variable with the index of the field it was
+    stored in — which is what the `DirectFlow` check looks for at every closure. -/
+theorem closure_apply_rebinds (st : State) (sc : Scope) (params : List (String × Ty)) (ty : Ty)
+    (hint : Option String) (body : Expr) :
+    let caps := collectCaptured sc ((loweredParams params (funcParts ty).1).map (·.1)) [] body
+    let sn := structNameFor hint st.nextId
+    let envp := Consts.envParamPrefix ++ toString st.gensym
+    ∃ fn, (finishClosure st sc params ty hint body).2.2.newFns = st.newFns ++ [fn] ∧
+      fn.name = applyFnName sn ∧
+      fn.params.map (·.1) = envp :: (loweredParams params (funcParts ty).1).map (·.1) ∧
+      unrebind sn envp 0 (caps.map (·.1)) fn.body = some body ∧
+      varNames? (caps.map (fun p => Expr.var p.1 p.2)) = some (caps.map (·.1)) ∧
+      (finishClosure st sc params ty hint body).1 =
+        .constr (.struct sn) (.struct sn) (caps.map (fun p => .var p.1 p.2)) := by
+  refine ⟨_, rfl, rfl, rfl, unrebind_rebind _ _ _ _ _ 0, ?_, rfl⟩
+  generalize collectCaptured sc _ [] body = caps
+  induction caps with
+  | nil => rfl
+  | cons c cs ih => simp [varNames?, varName?, ih]
+
 /-! ### non-vacuity: corpus programs (real Mono dumps, `Lemmas/LiftExamples.lean`) -/
 section NonVacuity
 open Examples
